@@ -352,6 +352,19 @@ def main():
             if bi % 200 == 199:
                 gc.collect()
     chk.cov["replays"] = total
+    # callbacks under threads: the reply is dispatched by another thread while the callback is being registered (every source
+    # line of add_callback / __call__ / serve as the forced preemption point)
+    from harness.drivers import serve_common as svc
+
+    def on_result(res, cfg, rep):
+        chk.evaluated()
+        bad = svc.judge_callbacks(res, cfg["reqs"])
+        for key, msg in bad:
+            chk.violation("threads:" + key, "C15 [reply dispatched by another thread] " + msg, rep)
+        if not bad:
+            chk.validated()
+    for cfgname in (("2bg", "2") if not chk.thorough else ("2bg", "2", "3", "3bg")):
+        svc.explore_line_preemptions(chk, cfgname, on_result, callbacks=True)
     chk.assumptions += [
         "virtual time: one tick = 1 s; a waiter reacts to data / expiry at the instant it happens (run-to-completion)",
         "'the reply came first' means: it was processed by a serve on the connection before the expiry instant; a frame that "
